@@ -3,7 +3,8 @@ from ..core import gz, glist, gbool
 
 ID = "C23"
 PROPS = ["theories/Props/C23.vo"]
-PINNED = ["C23_bookkeeping_restored", "C23_bookkeeping_ok", "C23_no_fault", "C23_holds_outside",
+PINNED = ["C23_bookkeeping_restored", "C23_bookkeeping_ok", "C23_no_fault", "C23_value_returned", "C23_room",
+          "C23_holds_outside",
           "C23_refuted_red_zone_counts_guard_page"]
 CASES_MODULE = "Cases.C23"
 HEADER = "From OCV Require Import Misc.StackGrow Misc.StackGrowOracle."
